@@ -66,6 +66,23 @@ def obligations(tier):
         for (m, p) in ([(2, 2), (1, 3)] if not thorough else [(2, 2), (1, 3), (3, 2)]):
             for nm, kk in (('ttv', 'T_TTV'), ('vt', 'T_VT'), ('tm', 'T_TM'), ('tm2', 'T_TM2')):
                 R(f'tensor_{nm}/o{o}/{m}x{p}', K[kk], {'HP_O': o, 'HP_M': m, 'HP_K': 1, 'HP_P': p}, clause='tensor contractions')
+    # memory safety of every kernel under CBMC's bit-precise memory model (the value harnesses with their CHECKs switched off)
+    SB = ('sym_bits_env.c', 'sym_pthread_sync.c', 'sym_sqrt_uf_bits.c')
+    def S(id, harness, defs, unwind):
+        d = dict(defs); d['LSV_SAFETY_ONLY'] = 1
+        obs.append(Ob(id='safety/' + id, harness=harness, tus=T, defs=d, engine='bits', unwind=unwind, timeout=300, clause='memory safety of the kernels', stubs=SB, object_bits=10))
+    for k in (0, 1, 3, 4, 5, 7):
+        S(f'matmul/2x{k}x2', 'C11/matmul.c', {'HP_M': 2, 'HP_K': k, 'HP_P': 2, 'HP_FN': 'MatrixDotProduct'}, k + 4)
+    for kn in ('MATVEC', 'VECMAT', 'OUTER', 'VTV', 'TRANSPOSE', 'TRACE', 'NORM', 'COVARIANCE', 'COLAVG', 'ROWAVG', 'COLVAR', 'COLSDEV', 'COLRMS', 'MINMAX', 'DVDOT'):
+        for (m, k, p) in ((1, 1, 1), (3, 2, 2), (2, 5, 3)):
+            if kn in ('COVARIANCE', 'COLVAR', 'COLSDEV') and m < 2: continue
+            if kn == 'TRACE': p = m
+            S(f'{kn.lower()}/{m}x{k}x{p}', 'C11/kernels.c', {'HP_KERNEL': K[kn], 'HP_M': m, 'HP_K': k, 'HP_P': p}, max(m, k, p) + 4)
+    for kn in ('MT_MATVEC', 'MT_VECMAT'):
+        for t in (2, 4):
+            S(f'{kn.lower()}/3x2x3/t{t}', 'C11/kernels.c', {'HP_KERNEL': K[kn], 'HP_M': 3, 'HP_K': 2, 'HP_P': 3, 'HP_T': t}, 8)
+    for kn in ('T_TTV', 'T_VT', 'T_TM', 'T_TM2'):
+        S(f'{kn.lower()}/o2/2x3', 'C11/kernels.c', {'HP_KERNEL': K[kn], 'HP_O': 2, 'HP_M': 2, 'HP_K': 1, 'HP_P': 3}, 8)
     # sorting: E-BITS (comparison-only float logic)
     for rows in ([1, 2, 3, 4] if not thorough else [1, 2, 3, 4, 5]):
         for cols in (1, 2):
